@@ -2,25 +2,35 @@
 (***************************************************************************)
 (* Neuron annotations (datatype neuronjson), property C16.                  *)
 (*                                                                          *)
-(* Persistent side: the master line of versions, one snapshot per version   *)
-(* (vers[k][id] = annotation of body id at version k; a new version         *)
-(* inherits its parent), plus the three schema documents per version.       *)
-(* In-memory side: the head database the server keeps for the head of the   *)
-(* master line -- the annotations, the sorted id list and the per-field     *)
-(* counters, all maintained *incrementally* by the write path, and rebuilt  *)
-(* from the store by a restart.                                             *)
+(* Persistent side: a DAG of versions (par[v] = parent tuple, bra[v] = the  *)
+(* branch the version was made on, 0 = master, lck[v] = committed), one     *)
+(* snapshot per version (vers[v][id] = annotation of body id at version v;  *)
+(* a new version inherits its parent, a merge version reads every datum by  *)
+(* the read rule of module KVRead over the entries own[v] written at each   *)
+(* version), plus the schema documents per version.                         *)
+(* In-memory side: one database per tracked branch head (master always,     *)
+(* the branches named ":b" in the `inmemory` store configuration, trk) and  *)
+(* one per configured committed version (stat) -- the annotations, the      *)
+(* sorted id list and the per-field counters, all maintained                *)
+(* *incrementally* by the write path, and rebuilt from the store by a       *)
+(* restart, when a tracked branch comes to exist, and when a branch head    *)
+(* moves to a version that is not the child of the version the database     *)
+(* holds (master head after a merge commit).                                *)
 (*                                                                          *)
 (* An annotation is [ex, fs]: ex = it exists; fs[f] = [v, u, t] for every   *)
 (* field f: v = 0 the field has no value, v > 0 an abstract value (the      *)
 (* table of concrete JSON values lives in the harness); u = who last        *)
 (* changed the value (0 = the seeding request, k = the k-th request of the  *)
-(* behaviour, which is posted with user "u<k>"); t = 0 the seeded (old)     *)
-(* time stamp, 1 = a time stamp written by the server.  Stamps are kept     *)
-(* only for fields that have a value: what the server remembers about a     *)
-(* removed field is not part of the property.                               *)
+(* behaviour, which is posted with user "u<k>", -1 = a user name supplied   *)
+(* by the client as <f>_user); t = 0 the seeded (old) time stamp, 1 = a     *)
+(* time stamp written by the server, 2 = a time supplied by the client as   *)
+(* <f>_time.  Stamps are kept only for fields that have a value: what the   *)
+(* server remembers about a removed field is not part of the property.      *)
 (*                                                                          *)
 (* An update is a function Fields -> {Un, Null} \cup 1..NumVals:            *)
-(* Un = the field is not mentioned, Null = JSON null.                       *)
+(* Un = the field is not mentioned, Null = JSON null; with it a function    *)
+(* Fields -> 0..3 saying which stamps the client supplies (1 = <f>_user,    *)
+(* 2 = <f>_time, 3 = both).                                                 *)
 (***************************************************************************)
 EXTENDS Integers, Sequences, FiniteSets, TLC, Json
 
@@ -36,49 +46,93 @@ CONSTANTS NumIds,      \* body ids are 1..NumIds
           CondSets,    \* the non-empty sets of protected fields used with ?conditionals=
           Kinds,       \* enabled request kinds
           Pick(_),     \* Pick(S) = S (exhaustive) or a random singleton subset of S (simulation)
-          SchemaKinds  \* schema documents in play (subset of {"schema","schema_batch","json_schema"})
+          SchemaKinds, \* schema documents in play (subset of {"schema","schema_batch","json_schema"})
+          MaxVers,     \* bound on the number of versions
+          Branches,    \* named branches (positive integers; 0 = master)
+          TrkSets,     \* `inmemory` branch lists a (re)start may be configured with (subsets of Branches)
+          StatMax,     \* at most this many committed versions configured as in-memory copies
+          StampSets,   \* client stamp functions a POST may carry (subset of [Fields -> 0..3])
+          NumDocs,     \* schema documents 1..NumDocs
+          Constrain,   \* [0..NumDocs -> 0..2]: as json_schema the document 0 accepts everything,
+                       \* 1 wants field CField to be an integer when present, 2 requires an integer CField
+          CField,      \* the constrained field
+          IntVals,     \* abstract values that are JSON integers
+          ConvTo,      \* abstract values that are strings spelling an integer |-> that integer's abstract value
+          AtomsOf,     \* [1..NumVals -> set of atoms] : the scalars a value offers to a query (itself, or its elements)
+          Queries,     \* sequence of queries: a query is a sequence (OR) of sequences (AND) of terms
+          Projs,       \* sequence of [fs, su, st]: ?fields= / ?show= combinations
+          EmitAll      \* TRUE: the printed history carries every version (DAG replay)
 
-VARIABLES vers,     \* sequence of snapshots, head = Len(vers)
-          schS,     \* sequence (per version) of [SchemaKinds -> 0..2]  (0 = none)
-          locked,   \* the head is committed and has no child yet
-          mem,      \* in-memory head database [data, ids, cnt]
-          schM,     \* in-memory schema documents
+VARIABLES vers,     \* sequence of snapshots, one per version (creation order)
+          schS,     \* sequence (per version) of [SchemaKinds -> 0..NumDocs]  (0 = none)
+          par,      \* sequence of parent tuples
+          bra,      \* sequence: branch of each version
+          lck,      \* sequence: committed?
+          own,      \* sequence: [ids, sks] = the data written (put or deleted) at this version itself
+          hd,       \* [{0} \cup Branches -> version or 0]: head of each branch (last version made on it by new-version / branch)
+          trk,      \* named branches tracked in memory (configuration of the last start)
+          stat,     \* committed versions held in memory (configuration of the last start)
+          memH,     \* [{0} \cup trk -> in-memory database [data, ids, cnt, ftok]]
+          memS,     \* [stat -> in-memory database]
+          schM,     \* in-memory schema documents of the master head
           step,
           hist,
           done      \* the behaviour is complete (history printed)
 
-vars == <<vers, schS, locked, mem, schM, step, hist, done>>
+vars == <<vers, schS, par, bra, lck, own, hd, trk, stat, memH, memS, schM, step, hist, done>>
+dagvars == <<par, bra, lck, hd>>
+
+K == INSTANCE KVRead WITH LastFoundBug <- FALSE
 
 Un   == -1
 Null == 0
+CliU == -1
+CliT == 2
 UpdVals == {Un, Null} \cup (1..NumVals)
 AllUpds == [Fields -> UpdVals]
 NoUpd   == [f \in Fields |-> Un]
+NoSt    == [f \in Fields |-> 0]
 
 IdSeq  == [i \in 1..NumIds |-> i]
 NoCell == [v |-> 0, u |-> 0, t |-> 0]
 Absent == [ex |-> FALSE, fs |-> [f \in Fields |-> NoCell]]
+NoSnap == [i \in 1..NumIds |-> Absent]
 Has(a, f) == a.ex /\ a.fs[f].v # 0
-HeadV == Len(vers)
-Cur  == vers[HeadV]
+NV == Len(vers)
+Versions == 1..NV
+MHead == hd[0]
+Cur  == vers[MHead]
+NoOwn == [ids |-> {}, sks |-> {}]
+NoSchema == [k \in SchemaKinds |-> 0]
+Children(v) == {c \in Versions : \E i \in 1..Len(par[c]) : par[c][i] = v}
 
 -----------------------------------------------------------------------------
 (* The field-merge rule of POST key / keyvalues.                            *)
-Merge(old, upd, replace, cond, user) ==
+UGiven(st, f) == st[f] = 1 \/ st[f] = 3
+TGiven(st, f) == st[f] = 2 \/ st[f] = 3
+Merge(old, upd, st, replace, cond, user) ==
     LET Kept(f)   == /\ old.fs[f].v # 0
                      /\ \/ upd[f] = Un /\ ~replace                      \* not mentioned: kept
                         \/ upd[f] > 0 /\ (f \in cond \/ upd[f] = old.fs[f].v)  \* protected, or same value
         SetNew(f) == upd[f] > 0 /\ ~Kept(f)
+        Base(f)   == IF Kept(f) THEN old.fs[f]
+                     ELSE IF SetNew(f) THEN [v |-> upd[f], u |-> user, t |-> 1]
+                     ELSE NoCell
     IN  [ex |-> TRUE,
-         fs |-> [f \in Fields |-> IF Kept(f) THEN old.fs[f]
-                                  ELSE IF SetNew(f) THEN [v |-> upd[f], u |-> user, t |-> 1]
-                                  ELSE NoCell]]
+         fs |-> [f \in Fields |->
+                   LET b == Base(f) IN
+                   IF b.v = 0 THEN NoCell
+                   ELSE IF st[f] = 0 THEN b
+                   ELSE [v |-> b.v,
+                         u |-> IF UGiven(st, f) THEN CliU ELSE b.u,       \* stamps the client supplies are taken as given
+                         t |-> IF TGiven(st, f) THEN CliT ELSE b.t]]]
 
 (* The property's claims about an update, stated without reference to Merge. *)
-MergeClaims(old, upd, replace, cond, user, new) ==
+MergeClaims(old, upd, st, replace, cond, user, new) ==
     /\ new.ex
     \* a partial update keeps the fields it does not mention
-    /\ ~replace => \A f \in Fields : upd[f] = Un => new.fs[f] = old.fs[f]
+    /\ ~replace => \A f \in Fields : upd[f] = Un /\ st[f] = 0 => new.fs[f] = old.fs[f]
+    /\ ~replace => \A f \in Fields : upd[f] = Un => new.fs[f].v = old.fs[f].v
     \* replace=true keeps exactly the mentioned non-null fields
     /\ replace => \A f \in Fields : (new.fs[f].v # 0) <=> (upd[f] > 0)
     \* a null removes the field's value
@@ -88,11 +142,29 @@ MergeClaims(old, upd, replace, cond, user, new) ==
     \* a protected field that is set is not overwritten; one that is not set is written
     /\ \A f \in cond : upd[f] > 0 =>
           new.fs[f].v = (IF old.fs[f].v # 0 THEN old.fs[f].v ELSE upd[f])
-    \* stamps change only when the value changes ...
-    /\ \A f \in Fields : new.fs[f].v # 0 /\ new.fs[f].v = old.fs[f].v => new.fs[f] = old.fs[f]
-    \* ... and a value that changed carries the poster and a fresh time
+    \* stamps change only when the value changes (or the client supplies them) ...
+    /\ \A f \in Fields : new.fs[f].v # 0 /\ new.fs[f].v = old.fs[f].v /\ st[f] = 0 => new.fs[f] = old.fs[f]
+    /\ \A f \in Fields : new.fs[f].v # 0 /\ new.fs[f].v = old.fs[f].v /\ ~UGiven(st, f) => new.fs[f].u = old.fs[f].u
+    /\ \A f \in Fields : new.fs[f].v # 0 /\ new.fs[f].v = old.fs[f].v /\ ~TGiven(st, f) => new.fs[f].t = old.fs[f].t
+    \* ... a value that changed carries the poster and a fresh time unless the client supplies them
     /\ \A f \in Fields : new.fs[f].v # 0 /\ new.fs[f].v # old.fs[f].v =>
-          new.fs[f].u = user /\ new.fs[f].t = 1
+          /\ new.fs[f].u = (IF UGiven(st, f) THEN CliU ELSE user)
+          /\ new.fs[f].t = (IF TGiven(st, f) THEN CliT ELSE 1)
+    \* ... and a supplied stamp of a field that has a value is stored
+    /\ \A f \in Fields : new.fs[f].v # 0 /\ UGiven(st, f) => new.fs[f].u = CliU
+    /\ \A f \in Fields : new.fs[f].v # 0 /\ TGiven(st, f) => new.fs[f].t = CliT
+
+(* json_schema: does the document doc accept the posted update, and what is stored. *)
+IntLike == IntVals \cup DOMAIN ConvTo
+Valid(doc, upd) ==
+    \/ Constrain[doc] = 0
+    \/ CField \notin Fields
+    \/ upd[CField] \in IntLike
+    \/ Constrain[doc] = 1 /\ upd[CField] = Un
+Conv(doc, upd) ==
+    IF Constrain[doc] # 0 /\ CField \in Fields /\ upd[CField] \in DOMAIN ConvTo
+    THEN [upd EXCEPT ![CField] = ConvTo[upd[CField]]] ELSE upd
+DocAt(v) == IF "json_schema" \in SchemaKinds THEN schS[v]["json_schema"] ELSE 0
 
 -----------------------------------------------------------------------------
 (* Reads evaluated on a snapshot (the store path).                          *)
@@ -102,160 +174,315 @@ RangeOf(s, lo, hi) == SelectSeq(IdSeq, LAMBDA i : s[i].ex /\ lo <= i /\ i <= hi)
 QExists(s, f, b) == SelectSeq(IdSeq, LAMBDA i : s[i].ex /\ (Has(s[i], f) <=> b))
 QEq(s, f, v)     == SelectSeq(IdSeq, LAMBDA i : Has(s[i], f) /\ s[i].fs[f].v = v)
 
-(* The same reads evaluated on the head database (the in-memory path).      *)
-MKeys            == mem.ids
-MCount(f)        == mem.cnt[f]
-MRange(lo, hi)   == SelectSeq(mem.ids, LAMBDA i : lo <= i /\ i <= hi)
-MQExists(f, b)   == SelectSeq(mem.ids, LAMBDA i : Has(mem.data[i], f) <=> b)
-MQEq(f, v)       == SelectSeq(mem.ids, LAMBDA i : Has(mem.data[i], f) /\ mem.data[i].fs[f].v = v)
+(* Queries: a term is [f, k, at]: k = "ex1" / "ex0" (existence), "any" (one of *)
+(* the atoms at -- a scalar, a list, the strings a regular expression matches -- *)
+(* equals the field's value or one of its elements).  Terms of one object are  *)
+(* ANDed, the objects of a list ORed; the answer is in ascending id order.     *)
+TermOK(a, t) == CASE t.k = "ex1" -> Has(a, t.f)
+                  [] t.k = "ex0" -> ~Has(a, t.f)
+                  [] OTHER       -> Has(a, t.f) /\ (AtomsOf[a.fs[t.f].v] \cap t.at) # {}
+QMatch(a, q)  == a.ex /\ \E i \in 1..Len(q) : \A j \in 1..Len(q[i]) : TermOK(a, q[i][j])
+QEval(s, q)   == SelectSeq(IdSeq, LAMBDA i : QMatch(s[i], q))
 
-(* Incremental maintenance of the head database.                            *)
+(* ?fields= / ?show=: which members of a field the answer for one annotation carries *)
+Proj(a, p) == [f \in Fields |->
+                 LET inc == (p.fs = {} \/ f \in p.fs) /\ Has(a, f)
+                 IN  [val |-> inc, user |-> inc /\ p.su, time |-> inc /\ p.st]]
+
+(* The same reads evaluated on an in-memory database.                       *)
+MKeys(m)            == m.ids
+MCount(m, f)        == m.cnt[f]
+MRange(m, lo, hi)   == SelectSeq(m.ids, LAMBDA i : lo <= i /\ i <= hi)
+MQExists(m, f, b)   == SelectSeq(m.ids, LAMBDA i : Has(m.data[i], f) <=> b)
+MQEq(m, f, v)       == SelectSeq(m.ids, LAMBDA i : Has(m.data[i], f) /\ m.data[i].fs[f].v = v)
+MQEval(m, q)        == SelectSeq(m.ids, LAMBDA i : QMatch(m.data[i], q))
+
+(* Incremental maintenance of an in-memory database.  ftok: no stamp has been *)
+(* removed or replaced by an older one since the database was loaded, i.e. the *)
+(* latest stamp seen per field is the latest stamp present (GET fieldtimes).   *)
 InsertSorted(s, x) ==
     IF \E i \in 1..Len(s) : s[i] = x THEN s
     ELSE SelectSeq(s, LAMBDA y : y < x) \o <<x>> \o SelectSeq(s, LAMBDA y : y > x)
 Bump(a, f) == IF Has(a, f) THEN 1 ELSE 0
+TRank(t) == CASE t = 0 -> 1 [] t = 2 -> 2 [] OTHER -> 3
+StampLost(old, new) == \E f \in Fields : Has(old, f) /\ (~Has(new, f) \/ TRank(new.fs[f].t) < TRank(old.fs[f].t))
 MemPut(m, id, new) ==
     [data |-> [m.data EXCEPT ![id] = new],
      ids  |-> InsertSorted(m.ids, id),
-     cnt  |-> [f \in Fields |-> m.cnt[f] - Bump(m.data[id], f) + Bump(new, f)]]
+     cnt  |-> [f \in Fields |-> m.cnt[f] - Bump(m.data[id], f) + Bump(new, f)],
+     ftok |-> m.ftok /\ ~StampLost(m.data[id], new)]
 MemDel(m, id) ==
     [data |-> [m.data EXCEPT ![id] = Absent],
      ids  |-> SelectSeq(m.ids, LAMBDA y : y # id),
-     cnt  |-> [f \in Fields |-> m.cnt[f] - Bump(m.data[id], f)]]
-Load(s) == [data |-> s, ids |-> KeysOf(s), cnt |-> [f \in Fields |-> CountOf(s, f)]]
+     cnt  |-> [f \in Fields |-> m.cnt[f] - Bump(m.data[id], f)],
+     ftok |-> m.ftok /\ ~StampLost(m.data[id], Absent)]
+Load(s) == [data |-> s, ids |-> KeysOf(s), cnt |-> [f \in Fields |-> CountOf(s, f)], ftok |-> TRUE]
+Same(m, s) == m.data = s /\ m.ids = KeysOf(s) /\ m.cnt = [f \in Fields |-> CountOf(s, f)]
+
+(* Which database serves version v (configured versions first, then branch heads). *)
+Served(v)  == v \in stat \/ (bra[v] \in DOMAIN memH /\ hd[bra[v]] = v)
+MemOf(v)   == IF v \in stat THEN memS[v] ELSE memH[bra[v]]
 
 -----------------------------------------------------------------------------
-OpRec(k) == [k |-> k, id |-> 0, upd |-> NoUpd, id2 |-> 0, upd2 |-> NoUpd, rep |-> FALSE,
-             cond |-> {}, clean |-> FALSE, sk |-> "", sc |-> 0]
+(* Version resolution at a merge: every datum by KVRead's read rule.        *)
+EntId(id) == [v \in {w \in Versions : id \in own[w].ids} |-> IF vers[v][id].ex THEN 1 ELSE 0]
+EntSk(sk) == [v \in {w \in Versions : sk \in own[w].sks} |-> IF schS[v][sk] # 0 THEN 1 ELSE 0]
+ParWith(ps) == Append(par, ps)
+MergeNodeId(ps, id) == K!ReadNode(ParWith(ps), EntId(id), NV + 1)
+MergeNodeSk(ps, sk) == K!ReadNode(ParWith(ps), EntSk(sk), NV + 1)
+MergeSnap(ps) == [id \in 1..NumIds |-> LET r == MergeNodeId(ps, id) IN IF r <= 0 THEN Absent ELSE vers[r][id]]
+MergeSch(ps)  == [sk \in SchemaKinds |-> LET r == MergeNodeSk(ps, sk) IN IF r <= 0 THEN 0 ELSE schS[r][sk]]
+ConflictFree(ps) == /\ \A id \in 1..NumIds : MergeNodeId(ps, id) # -1
+                    /\ \A sk \in SchemaKinds : MergeNodeSk(ps, sk) # -1
+
+-----------------------------------------------------------------------------
+OpRec(k) == [k |-> k, at |-> 0, id |-> 0, upd |-> NoUpd, st |-> NoSt, id2 |-> 0, upd2 |-> NoUpd, rep |-> FALSE,
+             cond |-> {}, clean |-> FALSE, sk |-> "", sc |-> 0, rej |-> 0, nv |-> 0, p2 |-> 0, br |-> 0,
+             trk |-> {}, stat |-> {}]
 
 Log(op) == /\ step' = step + 1 /\ UNCHANGED done
-           /\ hist' = IF Record THEN Append(hist, [op |-> op, post |-> vers'[Len(vers')], sch |-> schS'[Len(schS')],
-                                                   locked |-> locked'])
+           /\ hist' = IF Record
+                      THEN LET h == hd'[0]
+                               e == [op |-> op, post |-> vers'[h], sch |-> schS'[h], locked |-> lck'[h]]
+                           IN  Append(hist, IF EmitAll
+                                            THEN e @@ [all |-> vers', schAll |-> schS', lk |-> lck', hdm |-> hd',
+                                                       served |-> {v \in 1..Len(vers') : Served(v)'},
+                                                       ftok |-> {v \in 1..Len(vers') : Served(v)' /\ MemOf(v)'.ftok}]
+                                            ELSE e)
                       ELSE hist
 
-ModeOK(upd, replace, cond) ==
+ModeOK(upd, st, replace, cond) ==
     /\ ~(replace /\ cond # {})
     /\ \A f \in cond : upd[f] # Null      \* a null for a protected field: not specified, not generated
+    /\ cond # {} => st = NoSt             \* client stamps with protected fields: not specified, not generated
+
+\* a stamp is supplied only for a field that has a value after the request
+StampOK(old, upd, st, replace) ==
+    \A f \in Fields : st[f] # 0 => (upd[f] > 0 \/ (upd[f] = Un /\ ~replace /\ old.fs[f].v # 0))
 
 Modes == {<<FALSE, {}>>, <<TRUE, {}>>} \cup {<<FALSE, c>> : c \in CondSets}
 
-Post(id, upd, replace, cond) ==
-    /\ "post" \in Kinds /\ ~locked /\ ModeOK(upd, replace, cond)
-    /\ LET new == Merge(Cur[id], upd, replace, cond, step + 1) IN
-       /\ vers' = [vers EXCEPT ![HeadV] = [@ EXCEPT ![id] = new]]
-       /\ mem'  = MemPut(mem, id, new)
-    /\ UNCHANGED <<schS, locked, schM>>
-    /\ Log([OpRec("post") EXCEPT !.id = id, !.upd = upd, !.rep = replace, !.cond = cond])
+WriteAt(at, id, new) ==
+    /\ vers' = [vers EXCEPT ![at] = [@ EXCEPT ![id] = new]]
+    /\ own'  = [own EXCEPT ![at] = [@ EXCEPT !.ids = @ \cup {id}]]
+    /\ IF at \in stat THEN memS' = [memS EXCEPT ![at] = MemPut(@, id, new)] /\ UNCHANGED memH
+       ELSE IF Served(at) THEN memH' = [memH EXCEPT ![bra[at]] = MemPut(@, id, new)] /\ UNCHANGED memS
+       ELSE UNCHANGED <<memH, memS>>
 
-\* POST keyvalues: two annotations in one request, applied in order, same options.
-Batch(id, upd, id2, upd2, replace, cond) ==
-    /\ "batch" \in Kinds /\ ~locked /\ ModeOK(upd, replace, cond) /\ ModeOK(upd2, replace, cond)
-    /\ LET n1 == Merge(Cur[id], upd, replace, cond, step + 1)
-           s1 == [Cur EXCEPT ![id] = n1]
-           n2 == Merge(s1[id2], upd2, replace, cond, step + 1)
-       IN /\ vers' = [vers EXCEPT ![HeadV] = [s1 EXCEPT ![id2] = n2]]
-          /\ mem'  = MemPut(MemPut(mem, id, n1), id2, n2)
-    /\ UNCHANGED <<schS, locked, schM>>
-    /\ Log([OpRec("batch") EXCEPT !.id = id, !.upd = upd, !.id2 = id2, !.upd2 = upd2, !.rep = replace, !.cond = cond])
+CanWrite(at) == at \in Versions /\ ~lck[at]
+
+Post(at, id, upd, st, replace, cond) ==
+    /\ "post" \in Kinds /\ CanWrite(at) /\ ModeOK(upd, st, replace, cond)
+    /\ StampOK(vers[at][id], upd, st, replace)
+    /\ UNCHANGED <<schS, dagvars, trk, stat, schM>>
+    /\ IF Valid(DocAt(at), upd)
+       THEN /\ WriteAt(at, id, Merge(vers[at][id], Conv(DocAt(at), upd), st, replace, cond, step + 1))
+            /\ Log([OpRec("post") EXCEPT !.at = at, !.id = id, !.upd = upd, !.st = st, !.rep = replace, !.cond = cond])
+       ELSE /\ UNCHANGED <<vers, own, memH, memS>>         \* refused by the schema: nothing changes
+            /\ Log([OpRec("post") EXCEPT !.at = at, !.id = id, !.upd = upd, !.st = st, !.rep = replace, !.cond = cond, !.rej = 1])
+
+\* POST keyvalues: two annotations in one request, applied in order, same options; the
+\* request stops at the first annotation the schema refuses.
+Batch(at, id, upd, id2, upd2, replace, cond) ==
+    /\ "batch" \in Kinds /\ CanWrite(at) /\ ModeOK(upd, NoSt, replace, cond) /\ ModeOK(upd2, NoSt, replace, cond)
+    /\ UNCHANGED <<schS, dagvars, trk, stat, schM>>
+    /\ LET doc == DocAt(at)
+           n1 == Merge(vers[at][id], Conv(doc, upd), NoSt, replace, cond, step + 1)
+           s1 == [vers[at] EXCEPT ![id] = n1]
+           n2 == Merge(s1[id2], Conv(doc, upd2), NoSt, replace, cond, step + 1)
+           ok1 == Valid(doc, upd)
+           ok2 == Valid(doc, upd2)
+           m0 == MemOf(at)
+           m1 == MemPut(m0, id, n1)
+           m2 == IF ok2 THEN MemPut(m1, id2, n2) ELSE m1
+       IN /\ IF ~ok1 THEN UNCHANGED <<vers, own, memH, memS>>
+             ELSE /\ vers' = [vers EXCEPT ![at] = IF ok2 THEN [s1 EXCEPT ![id2] = n2] ELSE s1]
+                  /\ own'  = [own EXCEPT ![at] = [@ EXCEPT !.ids = @ \cup (IF ok2 THEN {id, id2} ELSE {id})]]
+                  /\ IF at \in stat THEN memS' = [memS EXCEPT ![at] = m2] /\ UNCHANGED memH
+                     ELSE IF Served(at) THEN memH' = [memH EXCEPT ![bra[at]] = m2] /\ UNCHANGED memS
+                     ELSE UNCHANGED <<memH, memS>>
+          /\ Log([OpRec("batch") EXCEPT !.at = at, !.id = id, !.upd = upd, !.id2 = id2, !.upd2 = upd2, !.rep = replace, !.cond = cond,
+                                         !.rej = IF ~ok1 THEN 1 ELSE IF ~ok2 THEN 2 ELSE 0])
 
 \* Create an absent annotation with explicit (old) stamps: the harness's way to make
 \* "the time stamp did not change" observable.
-Seed(id, upd) ==
-    /\ "seed" \in Kinds /\ ~locked /\ ~Cur[id].ex
+Seed(at, id, upd) ==
+    /\ "seed" \in Kinds /\ CanWrite(at) /\ ~vers[at][id].ex
     /\ \A f \in Fields : upd[f] # Null
-    /\ LET new == [ex |-> TRUE, fs |-> [f \in Fields |-> IF upd[f] > 0 THEN [v |-> upd[f], u |-> 0, t |-> 0] ELSE NoCell]] IN
-       /\ vers' = [vers EXCEPT ![HeadV] = [@ EXCEPT ![id] = new]]
-       /\ mem'  = MemPut(mem, id, new)
-    /\ UNCHANGED <<schS, locked, schM>>
-    /\ Log([OpRec("seed") EXCEPT !.id = id, !.upd = upd])
+    /\ UNCHANGED <<schS, dagvars, trk, stat, schM>>
+    /\ IF Valid(DocAt(at), upd)
+       THEN LET cu == Conv(DocAt(at), upd)
+                new == [ex |-> TRUE, fs |-> [f \in Fields |-> IF cu[f] > 0 THEN [v |-> cu[f], u |-> 0, t |-> 0] ELSE NoCell]]
+            IN /\ WriteAt(at, id, new)
+               /\ Log([OpRec("seed") EXCEPT !.at = at, !.id = id, !.upd = upd])
+       ELSE /\ UNCHANGED <<vers, own, memH, memS>>
+            /\ Log([OpRec("seed") EXCEPT !.at = at, !.id = id, !.upd = upd, !.rej = 1])
 
-Del(id) ==
-    /\ "del" \in Kinds /\ ~locked
-    /\ vers' = [vers EXCEPT ![HeadV] = [@ EXCEPT ![id] = Absent]]
-    /\ mem'  = MemDel(mem, id)
-    /\ UNCHANGED <<schS, locked, schM>>
-    /\ Log([OpRec("del") EXCEPT !.id = id])
+Del(at, id) ==
+    /\ "del" \in Kinds /\ CanWrite(at)
+    /\ vers' = [vers EXCEPT ![at] = [@ EXCEPT ![id] = Absent]]
+    /\ own'  = [own EXCEPT ![at] = [@ EXCEPT !.ids = @ \cup {id}]]
+    /\ IF at \in stat THEN memS' = [memS EXCEPT ![at] = MemDel(@, id)] /\ UNCHANGED memH
+       ELSE IF Served(at) THEN memH' = [memH EXCEPT ![bra[at]] = MemDel(@, id)] /\ UNCHANGED memS
+       ELSE UNCHANGED <<memH, memS>>
+    /\ UNCHANGED <<schS, dagvars, trk, stat, schM>>
+    /\ Log([OpRec("del") EXCEPT !.at = at, !.id = id])
 
-Commit ==
-    /\ "commit" \in Kinds /\ ~locked
-    /\ locked' = TRUE
-    /\ UNCHANGED <<vers, schS, mem, schM>>
-    /\ Log(OpRec("commit"))
+\* POST key/0: body id 0 is reserved, the request is refused and nothing changes.
+PostZero(at) ==
+    /\ "postzero" \in Kinds /\ CanWrite(at)
+    /\ UNCHANGED <<vers, schS, own, dagvars, trk, stat, memH, memS, schM>>
+    /\ Log([OpRec("postzero") EXCEPT !.at = at, !.rej = 1])
 
-\* The child inherits the parent; the head database now stands for the child.
-NewVersion ==
-    /\ "newver" \in Kinds /\ locked
-    /\ vers' = Append(vers, Cur) /\ schS' = Append(schS, schS[HeadV])
-    /\ locked' = FALSE
-    /\ UNCHANGED <<mem, schM>>
-    /\ Log(OpRec("newver"))
+Commit(at) ==
+    /\ "commit" \in Kinds /\ at \in Versions /\ ~lck[at]
+    /\ lck' = [lck EXCEPT ![at] = TRUE]
+    /\ UNCHANGED <<vers, schS, par, bra, own, hd, trk, stat, memH, memS, schM>>
+    /\ Log([OpRec("commit") EXCEPT !.at = at])
 
-Restart(clean) ==
-    /\ "restart" \in Kinds
-    /\ mem' = Load(Cur) /\ schM' = schS[HeadV]
-    /\ UNCHANGED <<vers, schS, locked>>
-    /\ Log([OpRec("restart") EXCEPT !.clean = clean])
+\* A child of p on branch b (b = bra[p]: new version; another b: a new branch).  The child
+\* inherits the parent.  It is the head of b from now on: the database of b stands for the
+\* child if it held the parent, and is loaded from the store otherwise.
+CanNewVersion(p, b) ==
+    /\ p \in Versions /\ lck[p] /\ NV < MaxVers
+    /\ IF b = bra[p] THEN \A c \in Children(p) : bra[c] # b
+       ELSE b \in Branches /\ \A v \in Versions : bra[v] # b
+NewVersion(p, b) ==
+    /\ (IF b = bra[p] THEN "newver" ELSE "branch") \in Kinds /\ CanNewVersion(p, b)
+    /\ vers' = Append(vers, vers[p]) /\ schS' = Append(schS, schS[p])
+    /\ par' = Append(par, <<p>>) /\ bra' = Append(bra, b) /\ lck' = Append(lck, FALSE)
+    /\ own' = Append(own, NoOwn)
+    /\ hd' = [hd EXCEPT ![b] = NV + 1]
+    /\ memH' = IF b \in DOMAIN memH /\ hd[b] # p THEN [memH EXCEPT ![b] = Load(vers[p])] ELSE memH
+    /\ schM' = IF b = 0 /\ hd[0] # p THEN schS[p] ELSE schM
+    /\ UNCHANGED <<trk, stat, memS>>
+    /\ Log([OpRec(IF b = bra[p] THEN "newver" ELSE "branch") EXCEPT !.at = p, !.nv = NV + 1, !.br = b])
 
-PostSchema(sk, c) ==
-    /\ "schema" \in Kinds /\ ~locked
-    /\ schS' = [schS EXCEPT ![HeadV] = [@ EXCEPT ![sk] = c]]
-    /\ schM' = [schM EXCEPT ![sk] = c]
-    /\ UNCHANGED <<vers, locked, mem>>
-    /\ Log([OpRec("postschema") EXCEPT !.sk = sk, !.sc = c])
+\* A conflict-free merge of two committed versions neither of which descends from the
+\* other.  The child is on master, is the head of no branch and is served from the store.
+CanMerge(p1, p2) ==
+    /\ p1 \in Versions /\ p2 \in Versions /\ p1 # p2 /\ lck[p1] /\ lck[p2] /\ NV < MaxVers
+    /\ p1 \notin K!Anc(par, p2) /\ p2 \notin K!Anc(par, p1)
+    /\ ConflictFree(<<p1, p2>>)
+MergeVersions(p1, p2) ==
+    /\ "merge" \in Kinds /\ CanMerge(p1, p2)
+    /\ vers' = Append(vers, MergeSnap(<<p1, p2>>)) /\ schS' = Append(schS, MergeSch(<<p1, p2>>))
+    /\ par' = Append(par, <<p1, p2>>) /\ bra' = Append(bra, 0) /\ lck' = Append(lck, FALSE)
+    /\ own' = Append(own, NoOwn)
+    /\ UNCHANGED <<hd, trk, stat, memH, memS, schM>>
+    /\ Log([OpRec("merge") EXCEPT !.at = p1, !.p2 = p2, !.nv = NV + 1])
 
-DelSchema(sk) ==
-    /\ "schema" \in Kinds /\ ~locked
-    /\ schS' = [schS EXCEPT ![HeadV] = [@ EXCEPT ![sk] = 0]]
-    /\ schM' = [schM EXCEPT ![sk] = 0]
-    /\ UNCHANGED <<vers, locked, mem>>
-    /\ Log([OpRec("delschema") EXCEPT !.sk = sk])
+\* (Re)start with an `inmemory` configuration: tracked branches T, committed versions S.
+EmptyMem == Load(NoSnap)
+Restart(clean, T, S) ==
+    /\ "restart" \in Kinds /\ T \subseteq Branches /\ S \subseteq {v \in Versions : lck[v]}
+    /\ trk' = T /\ stat' = S
+    /\ memH' = [b \in {0} \cup T |-> IF hd[b] # 0 THEN Load(vers[hd[b]]) ELSE EmptyMem]
+    /\ memS' = [v \in S |-> Load(vers[v])]
+    /\ schM' = schS[MHead]
+    /\ UNCHANGED <<vers, schS, own, dagvars>>
+    /\ Log([OpRec("restart") EXCEPT !.clean = clean, !.trk = T, !.stat = S])
 
-NoSchema == [k \in SchemaKinds |-> 0]
-Init == /\ \E s \in Seeds :
-             /\ vers = <<s>> /\ mem = Load(s)
-             /\ hist = IF Record THEN <<[op |-> OpRec("init"), post |-> s, sch |-> NoSchema, locked |-> FALSE]>> ELSE <<>>
-        /\ schS = <<NoSchema>> /\ schM = NoSchema
-        /\ locked = FALSE /\ step = 0 /\ done = FALSE
+PostSchema(at, sk, c) ==
+    /\ "schema" \in Kinds /\ CanWrite(at)
+    /\ schS' = [schS EXCEPT ![at] = [@ EXCEPT ![sk] = c]]
+    /\ own'  = [own EXCEPT ![at] = [@ EXCEPT !.sks = @ \cup {sk}]]
+    /\ schM' = IF at = MHead THEN [schM EXCEPT ![sk] = c] ELSE schM
+    /\ UNCHANGED <<vers, dagvars, trk, stat, memH, memS>>
+    /\ Log([OpRec("postschema") EXCEPT !.at = at, !.sk = sk, !.sc = c])
+
+DelSchema(at, sk) ==
+    /\ "schema" \in Kinds /\ CanWrite(at)
+    /\ schS' = [schS EXCEPT ![at] = [@ EXCEPT ![sk] = 0]]
+    /\ own'  = [own EXCEPT ![at] = [@ EXCEPT !.sks = @ \cup {sk}]]
+    /\ schM' = IF at = MHead THEN [schM EXCEPT ![sk] = 0] ELSE schM
+    /\ UNCHANGED <<vers, dagvars, trk, stat, memH, memS>>
+    /\ Log([OpRec("delschema") EXCEPT !.at = at, !.sk = sk])
+
+InitWith(s, T) ==
+    /\ vers = <<s>> /\ schS = <<NoSchema>> /\ par = <<<<>>>> /\ bra = <<0>> /\ lck = <<FALSE>>
+    /\ own = <<[ids |-> {i \in 1..NumIds : s[i].ex}, sks |-> {}]>>
+    /\ hd = [b \in {0} \cup Branches |-> IF b = 0 THEN 1 ELSE 0]
+    /\ trk = T /\ stat = {}
+    /\ memH = [b \in {0} \cup T |-> IF b = 0 THEN Load(s) ELSE EmptyMem]
+    /\ memS = [v \in {} |-> EmptyMem]
+    /\ schM = NoSchema
+    /\ hist = IF Record
+              THEN LET e == [op |-> OpRec("init"), post |-> s, sch |-> NoSchema, locked |-> FALSE]
+                   IN  <<IF EmitAll THEN e @@ [all |-> <<s>>, schAll |-> <<NoSchema>>, lk |-> <<FALSE>>,
+                                               hdm |-> [b \in {0} \cup Branches |-> IF b = 0 THEN 1 ELSE 0],
+                                               served |-> {1}, ftok |-> {1}]
+                         ELSE e>>
+              ELSE <<>>
+    /\ step = 0 /\ done = FALSE
+
+Init == \E s \in Seeds : \E T \in TrkSets : InitWith(s, T)
+
+Writable == {v \in Versions : ~lck[v]}
+StatSets == {S \in SUBSET {v \in Versions : lck[v]} : Cardinality(S) <= StatMax}
 
 \* Pick(S) is S itself for exhaustive exploration; the simulation configuration overrides it
 \* with a random singleton subset so that a random walk draws one instance per request kind.
 Next == \/ /\ step < MaxSteps
-           /\ \/ \E id \in Pick(1..NumIds), upd \in UpdsAt(step), m \in Pick(Modes) : Post(id, upd, m[1], m[2])
-              \/ \E id \in Pick(1..NumIds), id2 \in Pick(1..NumIds), upd \in Pick(UpdsAt(step)), upd2 \in Pick(UpdsAt(step + 100)), m \in Pick(Modes) :
-                    Batch(id, upd, id2, upd2, m[1], m[2])
-              \/ \E id \in Pick(1..NumIds), upd \in Pick(UpdsAt(step + 200)) : Seed(id, upd)
-              \/ \E id \in Pick(1..NumIds) : Del(id)
-              \/ Commit \/ NewVersion
-              \/ \E c \in Pick(BOOLEAN) : Restart(c)
-              \/ \E sk \in Pick(SchemaKinds) : (\E c \in Pick(1..2) : PostSchema(sk, c)) \/ DelSchema(sk)
+           /\ \/ \E at \in Pick(Writable), id \in Pick(1..NumIds), upd \in UpdsAt(step), st \in Pick(StampSets), m \in Pick(Modes) :
+                    Post(at, id, upd, st, m[1], m[2])
+              \/ \E at \in Pick(Writable), id \in Pick(1..NumIds), id2 \in Pick(1..NumIds), upd \in Pick(UpdsAt(step)), upd2 \in Pick(UpdsAt(step + 100)), m \in Pick(Modes) :
+                    Batch(at, id, upd, id2, upd2, m[1], m[2])
+              \/ \E at \in Pick(Writable), id \in Pick(1..NumIds), upd \in Pick(UpdsAt(step + 200)) : Seed(at, id, upd)
+              \/ \E at \in Pick(Writable), id \in Pick(1..NumIds) : Del(at, id)
+              \/ \E at \in Pick(Writable) : PostZero(at)
+              \/ \E at \in Pick(Writable) : Commit(at)
+              \/ \E p \in Pick({v \in Versions : lck[v]}) : \E b \in Pick({bra[p]} \cup Branches) : NewVersion(p, b)
+              \/ \E p1 \in Pick(Versions), p2 \in Pick(Versions) : MergeVersions(p1, p2)
+              \/ \E c \in Pick(BOOLEAN), T \in Pick(TrkSets), S \in Pick(StatSets) : Restart(c, T, S)
+              \/ \E at \in Pick(Writable), sk \in Pick(SchemaKinds) : (\E c \in Pick(1..NumDocs) : PostSchema(at, sk, c)) \/ DelSchema(at, sk)
         \/ /\ step = MaxSteps /\ ~done /\ done' = TRUE
-           /\ UNCHANGED <<vers, schS, locked, mem, schM, step, hist>>
+           /\ UNCHANGED <<vers, schS, par, bra, lck, own, hd, trk, stat, memH, memS, schM, step, hist>>
 
 Spec == Init /\ [][Next]_vars
 
 -----------------------------------------------------------------------------
-(* Property C16, first sentence: every read served from the head database   *)
-(* is the read the store gives for the head version.                        *)
+(* Property C16, first sentence: every read served from an in-memory        *)
+(* database is the read the store gives for the version it stands for.      *)
+CoherentWith(m, s) ==
+    /\ m.data = s
+    /\ MKeys(m) = KeysOf(s)
+    /\ \A f \in Fields : MCount(m, f) = CountOf(s, f)
+    /\ \A lo \in 1..NumIds, hi \in 1..NumIds : MRange(m, lo, hi) = RangeOf(s, lo, hi)
+    /\ \A f \in Fields : \A b \in BOOLEAN : MQExists(m, f, b) = QExists(s, f, b)
+    /\ \A f \in Fields : \A v \in 1..NumVals : MQEq(m, f, v) = QEq(s, f, v)
+    /\ \A q \in 1..Len(Queries) : MQEval(m, Queries[q]) = QEval(s, Queries[q])
+
 Inv_C16_Coherent ==
-    /\ mem.data = Cur
-    /\ MKeys = KeysOf(Cur)
-    /\ \A f \in Fields : MCount(f) = CountOf(Cur, f)
-    /\ \A lo \in 1..NumIds, hi \in 1..NumIds : MRange(lo, hi) = RangeOf(Cur, lo, hi)
-    /\ \A f \in Fields : \A b \in BOOLEAN : MQExists(f, b) = QExists(Cur, f, b)
-    /\ \A f \in Fields : \A v \in 1..NumVals : MQEq(f, v) = QEq(Cur, f, v)
-    /\ schM = schS[HeadV]
+    /\ \A b \in DOMAIN memH : IF hd[b] # 0 THEN CoherentWith(memH[b], vers[hd[b]]) ELSE Same(memH[b], NoSnap)
+    /\ \A v \in stat : CoherentWith(memS[v], vers[v])
+    /\ schM = schS[MHead]
 
 (* Property C16, second sentence, on every update enabled in the current state. *)
 Inv_C16_MergeRules ==
     step < MaxSteps =>
-      \A id \in 1..NumIds : \A upd \in UpdsAt(step) : \A m \in Modes :
-        ModeOK(upd, m[1], m[2]) =>
-          MergeClaims(Cur[id], upd, m[1], m[2], step + 1, Merge(Cur[id], upd, m[1], m[2], step + 1))
+      \A at \in Writable : \A id \in 1..NumIds : \A upd \in UpdsAt(step) : \A st \in StampSets : \A m \in Modes :
+        ModeOK(upd, st, m[1], m[2]) /\ StampOK(vers[at][id], upd, st, m[1]) =>
+          MergeClaims(vers[at][id], upd, st, m[1], m[2], step + 1, Merge(vers[at][id], upd, st, m[1], m[2], step + 1))
 
-(* Versions other than the head never change (new version = copy, writes go to the head). *)
+(* The snapshots are the store: every version reads every datum by KVRead's rule *)
+(* over the entries written at the versions themselves, and no read is a conflict. *)
+Inv_StoreIsRead ==
+    \A v \in Versions :
+      /\ \A id \in 1..NumIds : LET r == K!ReadNode(par, EntId(id), v) IN
+            /\ r # -1
+            /\ vers[v][id] = (IF r = 0 THEN Absent ELSE vers[r][id])
+      /\ \A sk \in SchemaKinds : LET r == K!ReadNode(par, EntSk(sk), v) IN
+            /\ r # -1
+            /\ schS[v][sk] = (IF r = 0 THEN 0 ELSE schS[r][sk])
+
+(* Committed versions never change; bookkeeping is well-formed. *)
 Inv_TypeOK ==
-    /\ \A k \in 1..Len(vers) : \A i \in 1..NumIds : ~vers[k][i].ex => vers[k][i] = Absent
-    /\ Len(schS) = Len(vers)
+    /\ \A k \in Versions : \A i \in 1..NumIds : ~vers[k][i].ex => vers[k][i] = Absent
+    /\ Len(schS) = NV /\ Len(par) = NV /\ Len(bra) = NV /\ Len(lck) = NV /\ Len(own) = NV
+    /\ \A b \in DOMAIN hd : hd[b] # 0 => (hd[b] \in Versions /\ bra[hd[b]] = b /\ Len(par[hd[b]]) <= 1)
+    /\ DOMAIN memH = {0} \cup trk /\ DOMAIN memS = stat /\ \A v \in stat : lck[v]
+    /\ \A v \in Versions : \A i \in 1..Len(par[v]) : par[v][i] < v /\ lck[par[v][i]]
 
 -----------------------------------------------------------------------------
 (* Expected reads of a snapshot, for the harness.                           *)
@@ -266,8 +493,13 @@ Exp(s) == [keys |-> KeysOf(s),
            eq   |-> [f \in Fields |-> [v \in 1..NumVals |-> IF v \in ScalarVals THEN QEq(s, f, v) ELSE <<>>]],
            rng  |-> [lo \in 1..NumIds |-> [hi \in 1..NumIds |-> RangeOf(s, lo, hi)]]]
 
+ExpAll(s) == Exp(s) @@ [qs   |-> [q \in 1..Len(Queries) |-> QEval(s, Queries[q])],
+                        proj |-> [p \in 1..Len(Projs) |-> [i \in 1..NumIds |-> Proj(s[i], Projs[p])]]]
+
 Emit ==
     (Record /\ done) =>
         PrintT(ToJson([hist  |-> hist,
-                       reads |-> IF EmitReads THEN [i \in 1..Len(hist) |-> Exp(hist[i].post)] ELSE <<>>]))
+                       reads |-> IF ~EmitReads THEN <<>>
+                                 ELSE IF EmitAll THEN [i \in 1..Len(hist) |-> [v \in 1..Len(hist[i].all) |-> ExpAll(hist[i].all[v])]]
+                                 ELSE [i \in 1..Len(hist) |-> Exp(hist[i].post)]]))
 =============================================================================
